@@ -28,7 +28,13 @@ TRUSTED = [
 ASSUMPTIONS = [
     "cut-off / centre frequency in (0, pi), bandwidth > 0, delay >= 1, eta >= 1 (the property's quantifier)",
     "theorems are over the reals; rounding is covered by the comparison tolerance only",
-    "gammatone.sampled first section: unit gain is proved under the hypothesis that its un-normalised gain is non-zero",
+    "gammatone.sampled first section: unit gain is proved under the hypothesis that its un-normalised gain is non-zero "
+    "(unconditionally for eta = 1)",
+    "the branch `if not denR: denR = 1` of lowpass.z / highpass.z is unreachable with binary floats (no double has "
+    "cos(x) == 0); it is covered by the theorems (cut-off pi/2 over the reals), not by the tie",
+    "gains measured on the implementation are compared with tolerance 1e-8 + 64 ulp * condition number of the "
+    "freq_response evaluation (sum|c_k| / |sum c_k z^k|); for gammatone.sampled with eta >= 5 at centre frequencies "
+    "within ~1e-2 of 0 or pi rounding dominates and the unit-gain check becomes vacuous (histogram gammatone_gain_tolerance)",
 ]
 MANIFEST = {"technique": "Lean 4 proof over R of generic [TrigField] design definitions + Float twin tied to the implementation"}
 
@@ -533,6 +539,33 @@ def tally(eng, c, io):
                   else "<1e-1" if t < 1e-1 else ">=1e-1 (rounding dominates: check vacuous)")
         if c["strategy"] == "sampled":
             eng.count("gammatone_eta", c["eta"])
+
+
+def extra_checks(eng):
+    """identity facts about the implementation's strategy tables (not per-case)"""
+    import audiolazy as al
+    eng.extra["pending"] = [
+        "gammatone_sampled_first_unit_gain_all_eta (def ... : Prop in Props/C13.lean): unit gain of the FIRST section of "
+        "gammatone.sampled for every order eta without the hypothesis that its differentiated numerator does not vanish "
+        "at e^{jf}; proved for eta = 1 (gammatone_sampled_first_eta1) and conditionally for all eta "
+        "(gammatone_sampled_sections); the general case is carried by the tie (eta 1..6)"]
+    eng.extra["refuted_on_the_model"] = [
+        "resonator.z_exp pole radius exp(-bw/2) for ALL parameters: false when cos(f)*(1+R^2) > 2R "
+        "(theorem resonator_z_exp_real_poles); recorded as known finding"]
+    want = {
+        "lowpass": {"pole", "z", "pole_exp", "z_exp"}, "highpass": {"pole", "z", "pole_exp", "z_exp"},
+        "resonator": {"poles_exp", "freq_poles_exp", "z_exp", "freq_z_exp"},
+        "comb": {"fb", "alpha", "fb_alpha", "feedback_alpha", "tau", "fb_tau", "feedback_tau", "ff", "ff_alpha", "feedforward_alpha"},
+        "gammatone": {"sampled", "slaney", "klapuri"},
+    }
+    for name, keys in sorted(want.items()):
+        sd = getattr(al, name)
+        got = {k for ks in sd.keys() for k in ks}
+        yield ("strategies:" + name, got == keys, "strategy names %r, expected %r" % (sorted(got), sorted(keys)))
+    yield ("default:lowpass", al.lowpass.default is al.lowpass.pole, "lowpass.default is not lowpass.pole")
+    yield ("default:highpass", al.highpass.default is al.highpass.z, "highpass.default is not highpass.z")
+    yield ("alias:comb", al.comb.alpha is al.comb.fb and al.comb.fb_tau is al.comb.tau and al.comb.ff_alpha is al.comb.ff,
+           "comb aliases do not name the same strategies")
 
 
 def _simpler(v):
